@@ -2,6 +2,7 @@
 import math
 
 import pandas as pd
+from hypothesis import strategies as st
 
 from .. import calls, canon, enumgen, gen, oracle
 from ..env import JOINS, mk_tok
@@ -229,4 +230,110 @@ class Bundled(Component):
         ctx.label("bundled-has-near-duplicate(d>=1)", a > 0)
 
 
-COMPONENTS = [Random(), E3(), Bundled()]
+@st.composite
+def large_ed_case(draw, tier):
+    big = tier == "thorough"
+    return {"seed": draw(st.integers(0, 2 ** 32 - 1)),
+            "nl": draw(st.integers(30, 200 if big else 90)),
+            "nr": draw(st.integers(30, 200 if big else 90)),
+            "length": draw(st.sampled_from([15, 40, 90])),
+            "alphabet": draw(st.sampled_from(["ab", "abcdefgh", "abcdefghijklmnopqrstuvwxyz -", "aé日b "])),
+            "q": draw(st.integers(1, 4)), "padding": draw(st.booleans()),
+            "return_set": draw(st.booleans()),
+            "threshold": draw(st.integers(0, 7)),
+            "op": draw(st.sampled_from(["<=", "<=", "<", "="])),
+            "n_jobs": draw(st.sampled_from([1, 1, 4, 16, -1]))}
+
+
+class Large(Component):
+    """Larger tables of long strings (15-90 characters, clusters a few edits apart) against a
+    banded Levenshtein: soundness, exact distance, completeness for q-gram-sharing pairs."""
+    name = "large"
+    kind = "hyp"
+    rule = "a 'must' pair at distance >= 1 and a q-gram-sharing pair that does not satisfy"
+
+    def examples(self, tier):
+        return 15 if tier == "quick" else 60
+
+    def strategy(self, tier):
+        return large_ed_case(tier)
+
+    def check(self, case, ctx):
+        import random
+        rnd = random.Random(case["seed"])
+        alpha = case["alphabet"]
+
+        def mutate(s_, k):
+            s_ = list(s_)
+            for _ in range(k):
+                op = rnd.randint(0, 2)
+                if op == 0 and s_:
+                    s_.pop(rnd.randrange(len(s_)))
+                elif op == 1:
+                    s_.insert(rnd.randint(0, len(s_)), rnd.choice(alpha))
+                elif s_:
+                    s_[rnd.randrange(len(s_))] = rnd.choice(alpha)
+            return "".join(s_)
+
+        nb = max(2, (case["nl"] + case["nr"]) // 8)
+        bases = ["".join(rnd.choice(alpha) for _ in range(rnd.randint(max(1, case["length"] // 2),
+                                                                      case["length"])))
+                 for _ in range(nb)]
+        lv = [mutate(rnd.choice(bases), rnd.randint(0, 5)) for _ in range(case["nl"])]
+        rv = [mutate(rnd.choice(bases), rnd.randint(0, 5)) for _ in range(case["nr"])]
+        L = pd.DataFrame({"k": [3 * i + 10 ** 9 for i in range(len(lv))],
+                          "s": pd.Series(lv, dtype=object)})
+        R = pd.DataFrame({"s": pd.Series(rv, dtype=object),
+                          "k": pd.Series(["r%d" % i for i in range(len(rv))], dtype=object)})
+        tokcfg = {"kind": "qgram", "q": case["q"], "padding": case["padding"],
+                  "return_set": case["return_set"]}
+        t, op = case["threshold"], case["op"]
+        with calls.backend(case["n_jobs"]):
+            df = ctx.lib(JOINS["EDIT_DISTANCE"], L, R, "k", "k", "s", "s", t, op, False, None,
+                         None, "l_", "r_", True, case["n_jobs"], False, mk_tok(tokcfg))
+        if df is None:
+            return
+        f = oracle.OPS[op]
+        otok = oracle.Tok(tokcfg, False)
+        got = {}
+        for i, j, sc in zip(df["l_k"].tolist(), df["r_k"].tolist(), df["_sim_score"].tolist()):
+            got[(i, j)] = got.get((i, j), []) + [sc]
+        lk, rk = L["k"].tolist(), R["k"].tolist()
+        lt = [set(otok(v)) for v in lv]
+        rt = [set(otok(v)) for v in rv]
+        who = "edit_distance_join threshold=%d op=%s q=%d padding=%s n_jobs=%d on %dx%d strings " \
+              "of length <=%d (seed %d)" % (t, op, case["q"], case["padding"], case["n_jobs"],
+                                           len(lv), len(rv), case["length"] + 5, case["seed"])
+        far = share_no = 0
+        for i, a in enumerate(lv):
+            for j, b in enumerate(rv):
+                k = (lk[i], rk[j])
+                d = oracle.levenshtein_bounded(a, b, t)
+                sat = d <= t and bool(f(d, t))
+                share = not lt[i].isdisjoint(rt[j])
+                scs = got.get(k)
+                if scs is not None:
+                    if len(scs) > 1:
+                        ctx.violation("join=EDIT_DISTANCE,kind=duplicate-pair",
+                                      "%s returned %r %d times" % (who, k, len(scs)))
+                    if not sat:
+                        ctx.violation("join=EDIT_DISTANCE,kind=non-qualifying-pair-returned",
+                                      "%s returned %r (%r, %r) whose distance is %s"
+                                      % (who, k, a, b, d if d <= t else ">%d" % t))
+                    elif canon.cv(scs[0]) != d:
+                        ctx.violation("join=EDIT_DISTANCE,kind=wrong-score",
+                                      "%s: %r scored %r, distance %d" % (who, k, scs[0], d))
+                elif sat and share:
+                    ctx.violation("join=EDIT_DISTANCE,kind=qualifying-pair-missing",
+                                  "%s does not return %r (%r, %r) at distance %d although they "
+                                  "share a q-gram" % (who, k, a, b, d))
+                if sat and share and d >= 1:
+                    far += 1
+                if share and not sat:
+                    share_no += 1
+        ctx.nontrivial(far > 0 and share_no > 0)
+        ctx.label("large:q=%d" % case["q"])
+        ctx.label("large:n_jobs>1", case["n_jobs"] != 1)
+
+
+COMPONENTS = [Random(), E3(), Bundled(), Large()]
